@@ -13,7 +13,7 @@ from fractions import Fraction
 from . import mir
 from .cfg import CFG
 from .terms import *        # noqa: F401,F403
-from .terms import mk, num, show, show_path, map_term, walk, has_havoc, ZERO, ONE, UNIT, TRUE, FALSE, _is_path
+from .terms import mk, num, show, show_path, map_term, walk, has_havoc, ZERO, ONE, UNIT, TRUE, FALSE, _is_path, beta_elem
 from .program import strip_generics
 
 DIM_TAGS = {'Ratio', 'Power', 'Energy', 'Time', 'Length', 'Mass', 'Velocity', 'Force', 'Acceleration', 'PowerRate',
@@ -740,6 +740,9 @@ class Analysis:
         if op == 'at':
             return ('at', v[1], self.project(v[2], c, st))
         if k == 'idx':
+            r = beta_elem(v, c[1])
+            if r is not None:
+                return r
             return ('elem', v, c[1])
         return ('proj', v, c)
 
@@ -1376,7 +1379,19 @@ class Analysis:
             b_ = it[3]
             if b_[0] == 'ref':
                 b_ = self._mk_iter_slice(b_, 'shr', bb)
-            return ('tuple', self.iter_item(it[2], st, bb), self.iter_item(b_, st, bb) if b_[0] == 'iter' else ('uf', 'next', b_))
+            ia = self.iter_item(it[2], st, bb)
+            pa = self.iter_pos(it[2])
+            if b_[0] == 'iter':
+                ib = self.iter_item(b_, st, bb)
+                pb = self.iter_pos(b_)
+                # both sides of a zip advance in lockstep: one position symbol
+                if pb != pa and pb[0] == 'iterpos':
+                    ib = map_term(ib, lambda x: pa if x == pb else x)
+            else:
+                # an owned collection consumed by value (zip(vec)): element at the same position
+                r = beta_elem(b_, pa)
+                ib = r if r is not None else ('elem', b_, pa)
+            return ('tuple', ia, ib)
         if kind == 'enumerate':
             return ('tuple', self.iter_pos(it[2]), self.iter_item(it[2], st, bb))
         if kind == 'map':
@@ -1422,7 +1437,7 @@ class Analysis:
                 return ('bound', lvl)
             return x
         item = map_term(item, rb)
-        return ('seq', tuple(src), item)
+        return ('seq', tuple(src), item, lvl)
 
     def _iter_sources(self, it):
         out = []
@@ -1583,7 +1598,7 @@ class Analysis:
                         else:
                             new_src.append(y)
                     srcs.append(tuple(new_src))
-                return ('seq', tuple(srcs), x[2])
+                return ('seq', tuple(srcs), x[2]) + x[3:]
             return self.resimplify(x, pre_st)
         _mm = {}
         new = []
@@ -1638,6 +1653,9 @@ class Analysis:
                 return r
             return ('pre', v[1] + (x[2],))
         elif op == 'elem':
+            r = beta_elem(x[1], x[2])
+            if r is not None:
+                return r
             return self.project(x[1], ('idx', x[2]), st) if x[1][0] in ('array', 'upd', 'pre', 'gamma') else x
         elif op == 'Gamma':
             d = x[1]
